@@ -561,7 +561,7 @@ def run_messages(ctx, case):
                     for it_ in req.batch_items:
                         # every value a caller can give the field, under every version (only KMIP 2.0 encodes it)
                         it_.ephemeral = rng.choice((None, None, True, False))
-                    data = rig.encode_request(req, version)
+                    data = rig.encode_request(req, version, substitute=False)    # the library's own encoding, nothing substituted
                 except Exception as e:
                     if CC.classify_write_error(e, False) != 'rejected':
                         ctx.violation('RequestMessage:%s|write-raises:%s' % ('+'.join(n for n, _ in named)[:40], type(e).__name__),
